@@ -117,7 +117,7 @@ func (g *GPath) pb() *pb.Path {
 	return p
 }
 
-const maxClients = 8
+const maxClients = 80
 
 type subInfo struct {
 	client int
@@ -151,7 +151,7 @@ func queueHook(point string) {
 	}
 	cs := w.conc
 	for i, c := range w.clients {
-		if !cs.seen[i] && c.Q.Len() > 0 {
+		if c != nil && !cs.seen[i] && c.Q.Len() > 0 {
 			cs.seen[i] = true
 			if cs.vict[i] && atomic.LoadInt32(&cs.done) == 1 {
 				cs.late = append(cs.late, i)
@@ -229,15 +229,22 @@ type world struct {
 	subs    []*subInfo // by handle; nil for AddQuery handles
 }
 
+// cl returns client i, created on first use (only the queues of clients that
+// exist are drained).
+func (w *world) cl(i int) *subscribe.VerifC06Client {
+	i %= maxClients
+	if w.clients[i] == nil {
+		w.clients[i] = subscribe.VerifC06NewClient()
+	}
+	return w.clients[i]
+}
+
 func newWorld() *world {
 	srv, err := subscribe.NewServer(cache.New(nil))
 	if err != nil {
 		vh.Die("NewServer: %v", err)
 	}
 	w := &world{srv: srv, m: subscribe.VerifC06Match(srv)}
-	for i := range w.clients {
-		w.clients[i] = subscribe.VerifC06NewClient()
-	}
 	return w
 }
 
@@ -247,7 +254,7 @@ func (w *world) drain(item interface{}) []Offer {
 	ctx := context.Background()
 	for i, c := range w.clients {
 		n := 0
-		for c.Q.Len() > 0 {
+		for c != nil && c.Q.Len() > 0 {
 			it, dup, err := c.Q.Next(ctx)
 			if err != nil {
 				panic(fmt.Sprintf("queue: %v", err))
@@ -274,7 +281,7 @@ func (w *world) apply(o Op) (res Obs) {
 	}()
 	switch o.K {
 	case "add":
-		w.removes = append(w.removes, w.m.AddQuery(cp(o.P), w.clients[o.C%maxClients].MatchClient()))
+		w.removes = append(w.removes, w.m.AddQuery(cp(o.P), w.cl(o.C).MatchClient()))
 		w.subs = append(w.subs, nil)
 		w.hclient = append(w.hclient, o.C%maxClients)
 		return Obs{Kind: "done"}
@@ -283,7 +290,7 @@ func (w *world) apply(o Op) (res Obs) {
 		for _, e := range o.Ents {
 			sl.Subscription = append(sl.Subscription, &pb.Subscription{Path: e.pb()})
 		}
-		w.removes = append(w.removes, subscribe.VerifC06AddSubscription(w.srv, sl, w.clients[o.C%maxClients]))
+		w.removes = append(w.removes, subscribe.VerifC06AddSubscription(w.srv, sl, w.cl(o.C)))
 		w.subs = append(w.subs, &subInfo{client: o.C % maxClients, list: sl, live: true})
 		w.hclient = append(w.hclient, o.C%maxClients)
 		return Obs{Kind: "done"}
@@ -328,6 +335,7 @@ func (w *world) apply(o Op) (res Obs) {
 		// X = client C registers P, is sent Ps[0] and removes itself, H times;
 		// Y = client C2 spins AddQuery(Tq)/remove (a neighbour on a shared prefix).
 		cx, cy := o.C%maxClients, o.C2%maxClients
+		mcx, mcy, qx := w.cl(cx).MatchClient(), w.cl(cy).MatchClient(), w.cl(cx).Q
 		pth := o.Ps[0]
 		var stop int32
 		var wg sync.WaitGroup
@@ -335,7 +343,7 @@ func (w *world) apply(o Op) (res Obs) {
 		go func() {
 			defer wg.Done()
 			for atomic.LoadInt32(&stop) == 0 {
-				rm := w.m.AddQuery(cp(o.Tq), w.clients[cy].MatchClient())
+				rm := w.m.AddQuery(cp(o.Tq), mcy)
 				rm()
 			}
 		}()
@@ -358,10 +366,10 @@ func (w *world) apply(o Op) (res Obs) {
 				wg.Wait()
 			}()
 			for i := 0; i < o.H; i++ {
-				rm := w.m.AddQuery(cp(o.P), w.clients[cx].MatchClient())
+				rm := w.m.AddQuery(cp(o.P), mcx)
 				tok := new(int)
 				w.m.UpdateOnce(tok, cp(pth), map[match.Client]struct{}{})
-				q := w.clients[cx].Q
+				q := qx
 				for q.Len() > 0 {
 					it, dup, err := q.Next(ctx)
 					if err != nil {
@@ -375,7 +383,7 @@ func (w *world) apply(o Op) (res Obs) {
 			}
 		}()
 		for _, c := range w.clients {
-			for c.Q.Len() > 0 {
+			for c != nil && c.Q.Len() > 0 {
 				if _, _, err := c.Q.Next(ctx); err != nil {
 					panic(fmt.Sprintf("queue: %v", err))
 				}
@@ -965,6 +973,100 @@ func randSubSeq(r *vh.Rand) []Op {
 	return ops
 }
 
+// many family: n distinct subscribers on exactly the same query (plus a few on
+// the parent, a child and a glob sibling), registered in two batches with
+// removals in between, then removals in every position -- first, middle and
+// last registered, a random half, all -- each followed by updates, then
+// re-registration of removed ones.  n runs over powers of two and their
+// neighbours: whatever thresholds an implementation has are not known here.
+func randManySeq(r *vh.Rand, n int) []Op {
+	var ops []Op
+	q := append([]string{randTarget(r)}, randNames(r, 2, 1)...)
+	p := append(cp(q), randNames(r, 1, 1)...)
+	upd := func() {
+		ops = append(ops, Op{K: "upd", P: p})
+		if r.Chance(1, 2) {
+			ops = append(ops, Op{K: "once", Ps: [][]string{p, q}})
+		}
+	}
+	alive := map[int]bool{}
+	viaSub := r.Chance(1, 3) // some of the subscribers come through addSubscription
+	add := func(c int) {
+		if viaSub && r.Chance(1, 2) {
+			ops = append(ops, Op{K: "sub", C: c, Pre: &GPath{Target: q[0]}, Ents: []*GPath{names(q[1:]...)}})
+		} else {
+			ops = append(ops, Op{K: "add", C: c, P: q})
+		}
+		alive[c] = true
+	}
+	rem := func(c int) { // handle numbers equal client numbers for the first n adds
+		ops = append(ops, Op{K: "rem", H: c})
+		delete(alive, c)
+	}
+	first := 1 + r.Intn(n)
+	for c := 0; c < first; c++ {
+		add(c)
+	}
+	if r.Chance(1, 2) {
+		upd()
+		for _, c := range []int{0, first / 2, first - 1} {
+			if alive[c] && r.Chance(2, 3) {
+				rem(c)
+			}
+		}
+		upd()
+	}
+	for c := first; c < n; c++ {
+		add(c)
+	}
+	// neighbours on shared nodes (handles n, n+1, ...)
+	h := n
+	extra := func(c int, qq []string) int {
+		ops = append(ops, Op{K: "add", C: c, P: qq})
+		h++
+		return h - 1
+	}
+	hp := extra(n, cp(q[:len(q)-1]))
+	hc := extra(n+1, append(cp(q), "c"))
+	hg := extra(n+2, append(cp(q[:len(q)-1]), "*"))
+	upd()
+	for _, c := range []int{0, n / 2, n - 1} {
+		if alive[c] {
+			rem(c)
+			upd()
+		}
+	}
+	for c := 0; c < n; c++ {
+		if alive[c] && r.Chance(1, 2) {
+			rem(c)
+		}
+	}
+	upd()
+	// some come back (new handles), the update reaches exactly the live ones
+	back := []int{0, n - 1, r.Intn(n)}
+	var hb []int
+	for _, c := range back {
+		if !alive[c] {
+			hb = append(hb, extra(c, cp(q)))
+			alive[c] = true
+		}
+	}
+	upd()
+	for c := 0; c < n; c++ {
+		if alive[c] {
+			ops = append(ops, Op{K: "rem", H: c})
+		}
+	}
+	for _, x := range hb {
+		ops = append(ops, Op{K: "rem", H: x})
+	}
+	upd()
+	ops = append(ops, Op{K: "rem", H: hp}, Op{K: "rem", H: hc}, Op{K: "rem", H: hg})
+	upd()
+	ops = append(ops, Op{K: "nodes"})
+	return ops
+}
+
 // race family: registration concurrent with another subscriber's
 // registration/removal on a shared prefix (and with updates).  X's query
 // extends, equals, or is a sibling of Y's, so that Y's removal prunes (or
@@ -1352,7 +1454,7 @@ func main() {
 	flag.Set("stderrthreshold", "FATAL")
 	o := vh.ParseFlags()
 	coalesce.VerifHook = queueHook
-	meta := vh.NewMeta("corpus cases; pairs-1: for every query path q of length 0..4 over {a,b,*} one case registering q and matching EVERY update path of length 0..4 over {a,b,*} against it (Update and UpdateOnce), then removal and the same updates again; pairs-2: two queries (same or different client) of length 0..3 against every update path of length 0..3 (quick: a seeded slice; thorough: all); sub: seeded subscribe-level sequences (1..3 subscription lists with 1..4 entries incl. entries without path, one list in six holding a name with a separator-like byte (/ , . space |) together with the same text split into separate elements, in either order, origins, keyed elements, deprecated element paths; notifications with 1..3 updates/deletes through Server.Update before and after removal); under: seeded cases about the path a notification is matched under: one notification prefix (0..2 elements) and 1..3 update paths, 3..7 subscribers above / at / below the prefix on paths agreeing with an update path (prefix, equal, extension, globbed) or disagreeing with every update path (at the first or a later element, or inside the prefix), subscription split between prefix and path at a random point (also path-less), origins (oc, openconfig, Openconfig, openconfig-x, default, none) in the subscription prefix or path and in the notification prefix, agreeing or not; then the notification as updates / deletes / mixed, atomic and not, prefix-only, with an empty update path, single update, other target, shorter prefix, target/origin noise, and again after one removal; race: seeded cases in which a client registers a query, is sent a compatible update and removes itself 1500 times (thorough: 4000) while a second goroutine spins AddQuery/removal of another client on a shared prefix (X below / at / beside / above Y) and sometimes a third spins Update; observed: how many of its updates the client was offered; conc: seeded concurrent cases: 2..7 clients on the same or overlapping paths (AddQuery, sometimes a subscription list), then Update/UpdateOnce during which a trigger client's callback -- running inside the matcher's call -- starts a goroutine calling the removal closures of a random subset (also twice), observing whether they return before the callback does (goroutine dump shows the remover parked on the lock, else bounded wait) and which of the clients being removed are first called after the removals returned, then updates that must not reach the removed clients; seq: seeded sequences of 4..30 operations mixing AddQuery (clients 0..2) / addSubscription (clients 3..7, one list each) / removal (repeated) / Update / UpdateOnce / Server.Update / trie size. distinct = distinct operation sequence; non-trivial = at least one registration and at least one update that was offered to some client")
+	meta := vh.NewMeta("corpus cases; pairs-1: for every query path q of length 0..4 over {a,b,*} one case registering q and matching EVERY update path of length 0..4 over {a,b,*} against it (Update and UpdateOnce), then removal and the same updates again; pairs-2: two queries (same or different client) of length 0..3 against every update path of length 0..3 (quick: a seeded slice; thorough: all); sub: seeded subscribe-level sequences (1..3 subscription lists with 1..4 entries incl. entries without path, one list in six holding a name with a separator-like byte (/ , . space |) together with the same text split into separate elements, in either order, origins, keyed elements, deprecated element paths; notifications with 1..3 updates/deletes through Server.Update before and after removal); under: seeded cases about the path a notification is matched under: one notification prefix (0..2 elements) and 1..3 update paths, 3..7 subscribers above / at / below the prefix on paths agreeing with an update path (prefix, equal, extension, globbed) or disagreeing with every update path (at the first or a later element, or inside the prefix), subscription split between prefix and path at a random point (also path-less), origins (oc, openconfig, Openconfig, openconfig-x, default, none) in the subscription prefix or path and in the notification prefix, agreeing or not; then the notification as updates / deletes / mixed, atomic and not, prefix-only, with an empty update path, single update, other target, shorter prefix, target/origin noise, and again after one removal; many: for n in {1,2,3,4,5,7,8,9,15,16,17,31,32,33,63,64,65}, three (thorough: twenty) seeded cases with n distinct clients on exactly the same query (through AddQuery, in a third of the cases half of them through addSubscription) plus neighbours on the parent, a child and a glob sibling, registered in two batches, removed in every position (first, middle, last registered, a random half, all), re-registered, with Update/UpdateOnce after every stage; race: seeded cases in which a client registers a query, is sent a compatible update and removes itself 1500 times (thorough: 4000) while a second goroutine spins AddQuery/removal of another client on a shared prefix (X below / at / beside / above Y) and sometimes a third spins Update; observed: how many of its updates the client was offered; conc: seeded concurrent cases: 2..7 clients on the same or overlapping paths (AddQuery, sometimes a subscription list), then Update/UpdateOnce during which a trigger client's callback -- running inside the matcher's call -- starts a goroutine calling the removal closures of a random subset (also twice), observing whether they return before the callback does (goroutine dump shows the remover parked on the lock, else bounded wait) and which of the clients being removed are first called after the removals returned, then updates that must not reach the removed clients; seq: seeded sequences of 4..30 operations mixing AddQuery (clients 0..2) / addSubscription (clients 3..7, one list each) / removal (repeated) / Update / UpdateOnce / Server.Update / trie size. distinct = distinct operation sequence; non-trivial = at least one registration and at least one update that was offered to some client")
 	meta.Samples = []interface{}{} // never null in meta.json
 	e := &emitter{dir: o.Out, cf: vh.NewCaseFile(), meta: meta, limit: 1500}
 
@@ -1453,6 +1555,17 @@ func main() {
 	ru := r.Fork()
 	for i := 0; i < nunder; i++ {
 		e.add("under", randUnderSeq(ru.Fork()))
+	}
+	counts := []int{1, 2, 3, 4, 5, 7, 8, 9, 15, 16, 17, 31, 32, 33, 63, 64, 65}
+	reps := 3
+	if o.Thorough() {
+		reps = 20
+	}
+	rm := r.Fork()
+	for k := 0; k < reps; k++ {
+		for _, n := range counts {
+			e.add("many", randManySeq(rm.Fork(), n))
+		}
 	}
 	nrace, iters := 150, 1500
 	if o.Thorough() {
